@@ -141,9 +141,11 @@ Definition write_aligned (d : dlcd) (cols col row : Z) (text : list Z) (clear : 
 (* the normalisations and the division of __redu_lcd_progress *)
 Definition dwidth (cols : Z) (width : option Z) : Z :=
   let w := match width with None => cols | Some w => w end in    (* emitter: cols_var when width is None *)
-  if (w <=? 0) || (w >? cols) then cols else w.
+  let w := if w >? cols then cols else w in                      (* if (width > cols) width = cols; *)
+  if w <? 1 then 1 else w.                                       (* if (width < 1) width = 1; *)
 Definition dfilled (value maxv width : Z) : Z :=
-  let maxv := if maxv <=? 0 then 1 else maxv in
+  let value := if maxv <=? 0 then 0 else value in                (* if (max_value <= 0) { value = 0; *)
+  let maxv := if maxv <=? 0 then 1 else maxv in                  (*                      max_value = 1; } *)
   let value := if value <? 0 then 0 else value in
   let value := if value >? maxv then maxv else value in
   let filled := Z.quot (value * width) maxv in
@@ -230,7 +232,11 @@ Definition dstep (d : dlcd) (op : lop) : option dlcd :=
   | OMessage top bottom ta ba clear =>
       if align_ok ta && align_ok ba then
         let d1 := match option_map utf8 top with Some t => write_aligned d cols 0 0 t clear ta | None => d end in
-        Some (match option_map utf8 bottom with Some b => write_aligned d1 cols 0 1 b clear ba | None => d1 end)
+        (* bottom: if (rows_var > 1) { __redu_lcd_write_aligned(..., 0, 1, ...); } *)
+        Some (match option_map utf8 bottom with
+              | Some b => if d_rows d >? 1 then write_aligned d1 cols 0 1 b clear ba else d1
+              | None => d1
+              end)
       else None
   | OClear => Some (lcd_clear d)
   | OProgress row value maxv width style label =>
